@@ -28,46 +28,34 @@ Proof.
   rewrite run_snoc. apply Own_step; [apply Wf_run | assumption].
 Qed.
 
-(* ------------------------------------------------------------------ no panic => the client registry is exact *)
+(* ------------------------------------------------------------------ the registries are exact *)
 
 Definition NP (t : st) : Prop := forall c, In c (creg t) -> c_phase (cl t c) = PHandle.
 
-Lemma NP_step cf t o : is_panic o = false -> NP t -> NP (step cf t o).
+Lemma NP_step cf t o : NP t -> NP (step cf t o).
 Proof.
-  intros Hp N. unfold NP in *.
+  intros N. unfold NP in *.
   unfold step; destruct (enabled cf t o) eqn:En; [| assumption].
-  destruct o; try discriminate Hp; opn En.
+  destruct o; opn En.
   all: intros k; pose proof (N k) as Nk; unfold upd, set_sstate;
        rewrite ?In_reg_add, ?In_reg_del; simpl In; eqb_all; cbn; try tauto; try congruence; intuition congruence.
 Qed.
 
-Lemma known_snoc ops o : known_c18 (ops ++ [o]) = known_c18 ops || is_panic o.
-Proof. unfold known_c18. rewrite existsb_app. simpl. rewrite orb_false_r. reflexivity. Qed.
-
-Lemma NP_run cf ops : known_c18 ops = false -> NP (run cf ops).
+Lemma NP_run cf ops : NP (run cf ops).
 Proof.
-  induction ops as [|o ops IH] using rev_ind; intros H.
-  - intros c [].
-  - rewrite known_snoc in H. apply orb_false_elim in H. destruct H as [H1 H2].
-    rewrite run_snoc. apply NP_step; auto.
+  induction ops as [|o ops IH] using rev_ind; [intros c []|].
+  rewrite run_snoc. apply NP_step; auto.
 Qed.
 
-Lemma registry_exact cf ops : known_c18 ops = false ->
+Lemma registry_exact cf ops :
   let t := run cf ops in
   (forall c, In c (creg t) <-> c_phase (cl t c) = PHandle) /\
   (forall s, In s (sreg t) <-> s_live (sv t s) = true) /\
   NoDup (creg t) /\ NoDup (sreg t).
 Proof.
-  intros H t. pose proof (RegOk_run cf ops) as R. pose proof (NP_run cf ops H) as N.
+  intros t. pose proof (RegOk_run cf ops) as R. pose proof (NP_run cf ops) as N.
   repeat split; try apply R; try apply N.
 Qed.
-
-(** The server registry is exact in every history, panics included. *)
-Lemma servers_exact cf ops :
-  let t := run cf ops in
-  (forall s, In s (sreg t) <-> s_live (sv t s) = true) /\ NoDup (sreg t) /\ NoDup (creg t) /\
-  (forall c, c_phase (cl t c) = PHandle -> In c (creg t)).
-Proof. intros t. pose proof (RegOk_run cf ops) as R. repeat split; apply R. Qed.
 
 (* ------------------------------------------------------------------ counting *)
 
@@ -91,12 +79,12 @@ Lemma pool_sum_reg cf t p :
   cl_idle r + cl_active r + cl_waiting r = length (filter (fun c => c_pool (cl t c) =? p) (creg t)).
 Proof. simpl. unfold cl_count. apply count3 with (f := fun c => c_state (cl t c)) (g := fun c => c_pool (cl t c) =? p). Qed.
 
-Lemma pool_sum cf ops p : known_c18 ops = false ->
+Lemma pool_sum cf ops p :
   let t := run cf ops in let r := show_pools cf t p in
   cl_idle r + cl_active r + cl_waiting r = length (clients_of t p).
 Proof.
-  intros H t r. unfold r. rewrite pool_sum_reg.
-  destruct (registry_exact cf ops H) as [RC [_ [NC _]]]. fold t in RC, NC.
+  intros t r. unfold r. rewrite pool_sum_reg.
+  destruct (registry_exact cf ops) as [RC [_ [NC _]]]. fold t in RC, NC.
   pose proof (Wf_run cf ops) as W. fold t in W.
   apply nodup_same_length.
   - apply NoDup_filter. assumption.
@@ -111,15 +99,15 @@ Proof.
   rewrite (H a (or_introl eq_refl)). apply IH. intros x Hx. apply H. right. assumption.
 Qed.
 
-Lemma zero_when_gone cf ops : known_c18 ops = false ->
+Lemma zero_when_gone cf ops :
   let t := run cf ops in
   (forall c, c_phase (cl t c) <> PHandle) ->
   creg t = [] /\ show_lists t = (0, 0, length (filter (fun k => is_sstate (s_state (sv t k)) SIdle) (sreg t)), 0) /\
   forall p, let r := show_pools cf t p in
             cl_idle r = 0 /\ cl_active r = 0 /\ cl_waiting r = 0 /\ sv_active r = 0.
 Proof.
-  intros H t G.
-  destruct (registry_exact cf ops H) as [RC [RS _]]. fold t in RC, RS.
+  intros t G.
+  destruct (registry_exact cf ops) as [RC [RS _]]. fold t in RC, RS.
   pose proof (Own_run cf ops) as O. fold t in O.
   assert (E : creg t = []).
   { destruct (creg t) as [|c l] eqn:Ec; [reflexivity|]. exfalso. apply (G c). apply RC. left. reflexivity. }
@@ -158,54 +146,19 @@ Proof.
   - apply (o_c2s _ O) in H. tauto.
 Qed.
 
-(** Waiting is shown exactly while the client is inside [pool.get], unless a candidate failure reset it. *)
-Definition NW (t : st) : Prop :=
-  forall c, c_phase (cl t c) = PHandle -> c_chk (cl t c) = true -> c_state (cl t c) = CWaiting.
-
-Lemma NW_step cf t o : Own t -> is_stale_fail cf o = false -> NW t -> NW (step cf t o).
-Proof.
-  intros O Hp N. unfold NW in *.
-  unfold step; destruct (enabled cf t o) eqn:En; [| assumption].
-  destruct o; opn En.
-  all: intros k; pose proof (N k) as Nk; unfold upd; eqb_all; cbn; try tauto; try congruence.
-  - simpl in Hp. destruct healthcheck, (areplica cf a); simpl in *; try discriminate; auto.
-  - intros _ Hc. apply (o_chk _ O) in Hc. destruct Hc. congruence.
-Qed.
-
-Lemma wait_snoc cf ops o : known_c18_wait cf (ops ++ [o]) = known_c18_wait cf ops || is_stale_fail cf o.
-Proof. unfold known_c18_wait. rewrite existsb_app. simpl. rewrite orb_false_r. reflexivity. Qed.
-
-Lemma waiting_exact cf ops : known_c18_wait cf ops = false ->
+(** Waiting is shown for as long as the client is blocked on a candidate inside [pool.get], and only inside
+    [pool.get] (the positions inside [pool.get] but outside an iteration are not blocking points). *)
+Lemma waiting_exact cf ops :
   let t := run cf ops in
-  forall c, c_phase (cl t c) = PHandle -> (c_state (cl t c) = CWaiting <-> c_chk (cl t c) = true).
+  forall c, c_phase (cl t c) = PHandle ->
+    (c_iter (cl t c) = true -> c_state (cl t c) = CWaiting) /\
+    (c_state (cl t c) = CWaiting -> c_chk (cl t c) = true) /\
+    (c_iter (cl t c) = true -> c_chk (cl t c) = true).
 Proof.
-  intros H t c Hc. split; [apply (o_wait _ (Own_run cf ops) c Hc)|].
-  revert c Hc. fold (NW t). unfold t. clear t.
-  induction ops as [|o ops IH] using rev_ind.
-  - intros c Hc. discriminate Hc.
-  - rewrite wait_snoc in H. apply orb_false_elim in H. destruct H as [H1 H2].
-    rewrite run_snoc. apply NW_step; auto. apply Own_run.
-Qed.
-
-(* ------------------------------------------------------------------ the only leak is a panic *)
-
-Lemma leak_step cf t o k :
-  In k (creg (step cf t o)) -> c_phase (cl (step cf t o) k) <> PHandle ->
-  (In k (creg t) /\ c_phase (cl t k) <> PHandle) \/ (o = ExitPanic k /\ enabled cf t o = true).
-Proof.
-  unfold step. destruct (enabled cf t o) eqn:En; [| tauto].
-  destruct o; gd En; unfold apply, exit_client; cbn [cl cids sv sids creg sreg at_];
-    unfold upd; rewrite ?In_reg_add, ?In_reg_del; eqb_all; cbn; try tauto; try congruence; intuition congruence.
-Qed.
-
-Lemma only_panic_leaks cf ops c :
-  In c (creg (run cf ops)) -> c_phase (cl (run cf ops) c) <> PHandle -> In (ExitPanic c) (trace cf ops).
-Proof.
-  induction ops as [|o ops IH] using rev_ind; [intros []|].
-  rewrite run_snoc, trace_snoc. intros A B.
-  destruct (leak_step cf _ o c A B) as [[A' B'] | [E1 E2]]; apply in_or_app.
-  - left. auto.
-  - right. rewrite E2, E1. left. reflexivity.
+  intros t c Hc. pose proof (Own_run cf ops) as O. fold t in O. repeat split.
+  - intros H. apply (o_iter _ O c H).
+  - apply (o_wait _ O c Hc).
+  - intros H. apply (o_iter _ O c H).
 Qed.
 
 (* ------------------------------------------------------------------ totals *)
@@ -592,18 +545,28 @@ Proof. split; [intros a; apply at_mono | apply rows_mono]. Qed.
 
 Definition cf_w : cfg := [(1, false); (1, true)].   (* address 0: primary of pool 1, address 1: replica of pool 1 *)
 Definition panic_w : list op := [Login 1 1 true; HandleStart 1; ExitPanic 1].
-Definition stale_w : list op := [Login 1 1 true; HandleStart 1; CheckoutStart 1; CandidateFail 1 1 false].
+Definition retry_w : list op :=
+  [Login 1 1 true; HandleStart 1; CheckoutStart 1; CandidateTry 1; CandidateFail 1 1 false; CandidateTry 1].
 
-Lemma panic_leaks_row :
-  exists cf ops, known_c18 ops = true /\
-    let t := run cf ops in
-    exists c, In c (creg t) /\ c_phase (cl t c) = PGone /\
-              cl_idle (show_pools cf t 1) = 1 /\ length (clients_of t 1) = 0.
-Proof. exists cf_w, panic_w. split; [reflexivity|]. exists 1. vm_compute. repeat split. left. reflexivity. Qed.
+(** Regression witnesses: what the repaired call sites do, and what the code did before. *)
+Lemma panic_row_removed :
+  let t := run cf_w panic_w in
+  creg t = [] /\ c_phase (cl t 1) = PGone /\ cl_idle (show_pools cf_w t 1) = 0 /\ trace cf_w panic_w = panic_w.
+Proof. vm_compute. repeat split. Qed.
 
-Lemma waiting_shown_idle :
-  exists cf ops, known_c18_wait cf ops = true /\ known_c18 ops = false /\
-    let t := run cf ops in
-    exists c, c_phase (cl t c) = PHandle /\ c_chk (cl t c) = true /\ c_state (cl t c) = CIdle /\
-              cl_waiting (show_pools cf t 1) = 0 /\ cl_idle (show_pools cf t 1) = 1.
-Proof. exists cf_w, stale_w. split; [reflexivity|]. split; [reflexivity|]. exists 1. vm_compute. repeat split. Qed.
+Lemma old_panic_leaked_row :
+  let t := exit_panic_old (run cf_w [Login 1 1 true; HandleStart 1]) 1 in
+  In 1 (creg t) /\ c_phase (cl t 1) = PGone /\ cl_idle (show_pools cf_w t 1) = 1 /\ length (clients_of t 1) = 0.
+Proof. vm_compute. repeat split. left. reflexivity. Qed.
+
+Lemma retry_is_waiting :
+  let t := run cf_w retry_w in
+  c_iter (cl t 1) = true /\ c_state (cl t 1) = CWaiting /\ c_err (cl t 1) = 1 /\
+  cl_waiting (show_pools cf_w t 1) = 1 /\ cl_idle (show_pools cf_w t 1) = 0 /\ trace cf_w retry_w = retry_w.
+Proof. vm_compute. repeat split. Qed.
+
+Lemma old_retry_shown_idle :
+  let t := candidate_try_old (run cf_w (firstn 5 retry_w)) 1 in
+  c_iter (cl t 1) = true /\ c_state (cl t 1) = CIdle /\
+  cl_waiting (show_pools cf_w t 1) = 0 /\ cl_idle (show_pools cf_w t 1) = 1.
+Proof. vm_compute. repeat split. Qed.
